@@ -14,7 +14,8 @@
 
    compile mirrors, in this order of registration (which is what the exits see):
      VisitVarDecl/claimOrCopy 386-412,462-536; exitScope/exitFuncScope 414-448; VisitStringLit etc.
-     (addTemporary); BIN_CONCAT 1029-1100; BIN_AND/OR 955-996; TER_FALLS 1610-1674; VisitFuncCall
+     (addTemporary); BIN_CONCAT 1029-1100; BIN_INDEX on lists 1312-1345 (element of a TEMPORARY list: deep copy into
+     a temporary of its own; of a variable: reference); BIN_AND/OR 955-996; TER_FALLS 1610-1674; VisitFuncCall
      2015-2117 + defineFuncBody 616-681; VisitAssignStmt 2306-2335; VisitBlockStmt, VisitIfStmt,
      VisitWhileStmt (condition compiled AFTER the body, in a scope of its own that is left on every
      iteration), VisitForStmt (`bis` compiled twice, after the body, each in a scope of its own),
